@@ -49,6 +49,27 @@ def disk_state(dbdir):
 	return tuple(out)
 
 
+def make_wal(fx):
+	"""Switch the genome file to SQLite's write-ahead-log journal mode (persistent in the file header), as a database built or last edited with
+	PRAGMA journal_mode=WAL would be."""
+	import sqlite3
+	for name in os.listdir(fx.dbdir):
+		if name.endswith(('.gdb', '.db')):
+			con = sqlite3.connect(os.path.join(fx.dbdir, name))
+			mode = con.execute('PRAGMA journal_mode=WAL').fetchall()
+			con.close()
+			if mode != [('wal',)]:
+				raise HarnessError(f'could not switch {name} to WAL mode: {mode}')
+
+
+def visible(s, wal):
+	"""WAL mode: while a read connection is open an EMPTY -wal file and the -shm index sit next to the genome file; they hold no change and are
+	gone when the connection is closed (then the comparison is strict).  A non-empty -wal file holds written frames and is a change."""
+	if not wal:
+		return s
+	return tuple(x for x in s if not (x[0].endswith('-shm') or (x[0].endswith('-wal') and x[1] == 0)))
+
+
 def cli_args(fx, d, ev):
 	o = os.path.join(d, 'out.tmp')
 	g = [fx.q['g1'], fx.q['g2']]
@@ -72,14 +93,21 @@ def plan(tier, seed):
 	depth = 2 if tier == 'quick' else 3
 	tasks = [('t_cli_histories', dict(depth=depth, first=e)) for e in range(len(CLI_EVENTS))]
 	tasks += [('t_cli_fresh', dict(part=p, nparts=8, pairs=True)) for p in range(8)]
+	# the same against a genome file in write-ahead-log journal mode
+	tasks += [('t_cli_histories', dict(depth=depth, first=e, wal=True)) for e in range(len(CLI_EVENTS))]
+	tasks += [('t_cli_fresh', dict(part=p, nparts=4, pairs=(tier != 'quick'), wal=True)) for p in range(4)]
+	tasks += [('t_library', dict(depth=3 if tier == 'quick' else 4, part=p, nparts=11, wal=True)) for p in range(11)]
 	tasks += [('t_library', dict(depth=4 if tier == 'quick' else 5, part=p, nparts=11)) for p in range(11)]
 	return tasks
 
 
-def t_cli_histories(depth, first):
+def t_cli_histories(depth, first, wal=False):
 	sh = Shard()
+	extra = dict(journal_mode='wal') if wal else {}
 	with fixtures.workdir('c18') as d:
 		fx = clifix.build(os.path.join(d, 'fx'), params=['P0', 'P1'])
+		if wal:
+			make_wal(fx)
 		s0 = disk_state(fx.dbdir)
 		states = {s0}
 		expect_fail = {e for e in CLI_EVENTS if e.startswith('fail-')}
@@ -93,15 +121,22 @@ def t_cli_histories(depth, first):
 				sh.transitions += 1
 				sh.traces += 1
 				if (code != 0) != (ev in expect_fail):
-					sh.violation('cli-event-unexpected-exit', dict(history=[CLI_EVENTS[i] for i in hist[:step + 1]], mode='in-process'), 'fail' if ev in expect_fail else 'exit 0',
+					sh.violation('cli-event-unexpected-exit', dict(history=[CLI_EVENTS[i] for i in hist[:step + 1]], mode='in-process', **extra), 'fail' if ev in expect_fail else 'exit 0',
 					             dict(exit=code, exc=repr(exc), out=stdout[-300:]))
 					break
-				s = disk_state(fx.dbdir)
+				s = visible(disk_state(fx.dbdir), wal)
 				if s != s0:
 					states.add(s)
-					sh.violation('database-files-changed', dict(history=[CLI_EVENTS[i] for i in hist[:step + 1]], mode='in-process'), [list(x) for x in s0], [list(x) for x in s])
+					sh.violation('database-files-changed', dict(history=[CLI_EVENTS[i] for i in hist[:step + 1]], mode='in-process', **extra), [list(x) for x in s0], [list(x) for x in s])
 					break
 			else:
+				if wal:
+					gc.collect()           # connections of the finished commands are closed: now nothing but the two files may be there
+					s = disk_state(fx.dbdir)
+					if s != s0:
+						sh.violation('database-files-changed', dict(history=[CLI_EVENTS[i] for i in hist] + ['(gc)'], mode='in-process', **extra), [list(x) for x in s0], [list(x) for x in s])
+						continue
+					sh.count('wal_mode_histories')
 				sh.nontrivial += 1
 		sh.states = len(states)
 	sh.count('cli_histories', 1)
@@ -109,14 +144,17 @@ def t_cli_histories(depth, first):
 	return sh
 
 
-def t_cli_fresh(part, nparts, pairs):
+def t_cli_fresh(part, nparts, pairs, wal=False):
 	"""Each event in its own interpreter."""
 	sh = Shard()
+	extra = dict(journal_mode='wal') if wal else {}
 	hists = [(a,) for a in range(len(CLI_EVENTS))]
 	if pairs:
 		hists += [(a, b) for a in range(len(CLI_EVENTS)) for b in range(len(CLI_EVENTS)) if a != b and (a + b) % 3 == 0]
 	with fixtures.workdir('c18f') as d:
 		fx = clifix.build(os.path.join(d, 'fx'), params=['P0', 'P1'])
+		if wal:
+			make_wal(fx)
 		s0 = disk_state(fx.dbdir)
 		env = dict(os.environ)
 		for hi, hist in enumerate(hists):
@@ -129,14 +167,16 @@ def t_cli_fresh(part, nparts, pairs):
 				sh.transitions += 1
 				sh.traces += 1
 				if (r.returncode != 0) != ev.startswith('fail-'):
-					sh.violation('cli-event-unexpected-exit', dict(history=[CLI_EVENTS[i] for i in hist[:step + 1]], mode='fresh-interpreter'), None, dict(exit=r.returncode, err=r.stderr[-400:]))
+					sh.violation('cli-event-unexpected-exit', dict(history=[CLI_EVENTS[i] for i in hist[:step + 1]], mode='fresh-interpreter', **extra), None, dict(exit=r.returncode, err=r.stderr[-400:]))
 					break
 				s = disk_state(fx.dbdir)
 				if s != s0:
-					sh.violation('database-files-changed', dict(history=[CLI_EVENTS[i] for i in hist[:step + 1]], mode='fresh-interpreter'), [list(x) for x in s0], [list(x) for x in s])
+					sh.violation('database-files-changed', dict(history=[CLI_EVENTS[i] for i in hist[:step + 1]], mode='fresh-interpreter', **extra), [list(x) for x in s0], [list(x) for x in s])
 					break
 			else:
 				sh.nontrivial += 1
+				if wal:
+					sh.count('wal_mode_histories')
 		sh.states = 1
 	sh.count('fresh_interpreter_histories', 1)
 	sh.sample(dict(family='cli-fresh-interpreter', last_history=[CLI_EVENTS[i] for i in hist]))
@@ -287,7 +327,7 @@ def lib_apply(w, ev):
 	return None
 
 
-def lib_replay(fx, hist):
+def lib_replay(fx, hist, wal=False):
 	"""Replay a history on fresh real objects; returns (world, violation or None, disk state after every event)."""
 	fixtures.reset_gambit_globals()       # own the library's module-level state: every history starts as in a fresh interpreter
 	w = World(fx)
@@ -301,13 +341,13 @@ def lib_replay(fx, hist):
 			# an operation the library refuses in this state (e.g. query() on a closed session) is not a verdict; the files are still checked,
 			# and the history is not extended further
 			v = None
-			if disk_state(fx.dbdir) == s0:
+			if visible(disk_state(fx.dbdir), wal) == s0:
 				return w, dict(kind='not-enabled', at=i, error=repr(e)[:200]), s0
 		if v is None:
 			s = disk_state(fx.dbdir)
 			# SQLite's rollback journal of a transaction that is still open (possibly of a session that was dropped but not yet collected) is
 			# transient and not a change of the database bytes; it must be gone - and is compared strictly - once the history's sessions are closed
-			s = tuple(x for x in s if not x[0].endswith('-journal'))
+			s = visible(tuple(x for x in s if not x[0].endswith('-journal')), wal)
 			if s != s0:
 				v = dict(kind='database-files-changed', before=[list(x) for x in s0], after=[list(x) for x in s])
 		if v is not None:
@@ -331,11 +371,14 @@ def lib_cleanup(w):
 	gc.collect()
 
 
-def t_library(depth, part, nparts):
+def t_library(depth, part, nparts, wal=False):
 	"""BFS over histories; this task owns the subtrees whose second event index mod nparts == part (all start with 'load')."""
 	sh = Shard()
+	extra = dict(journal_mode='wal') if wal else {}
 	with fixtures.workdir('c18l') as d:
 		fx = clifix.build(os.path.join(d, 'fx'), params=['P0'])
+		if wal:
+			make_wal(fx)
 		import gambit.db, gambit.db.sqla, gambit.query, gambit.results, gambit.cli      # import everything first, then snapshot the globals
 		fixtures.reset_gambit_globals()
 		seen = {}
@@ -344,25 +387,27 @@ def t_library(depth, part, nparts):
 		while frontier and level <= depth:
 			nxt = []
 			for hist in frontier:
-				w, v, s0 = lib_replay(fx, hist)
+				w, v, s0 = lib_replay(fx, hist, wal)
 				sh.evals += 1
 				sh.transitions += 1
 				sh.traces += 1
 				if v is not None and v['kind'] != 'not-enabled':
-					sh.violation(v['kind'], dict(history=list(hist), mode='library'), None, v)
+					sh.violation(v['kind'], dict(history=list(hist), mode='library', **extra), None, v)
 					lib_cleanup(w)
 					continue
-				key = (disk_state(fx.dbdir), w.key())
+				key = (visible(disk_state(fx.dbdir), wal), w.key())
 				enabled = lib_enabled(w)
 				lib_cleanup(w)
 				# closing the connections / disposing of the engine / garbage collection at the end of a history are events too
 				after = disk_state(fx.dbdir)
 				if after != s0:
-					sh.violation('database-files-changed', dict(history=list(hist) + ['(session closed, engine disposed, gc)'], mode='library'), [list(x) for x in s0], [list(x) for x in after])
+					sh.violation('database-files-changed', dict(history=list(hist) + ['(session closed, engine disposed, gc)'], mode='library', **extra), [list(x) for x in s0], [list(x) for x in after])
 					# restore a pristine database for the following histories
 					import shutil
 					shutil.rmtree(os.path.join(d, 'fx'))
 					fx = clifix.build(os.path.join(d, 'fx'), params=['P0'])
+					if wal:
+						make_wal(fx)
 					continue
 				if any(e in hist for e in ('edit-attr', 'add-taxon', 'delete-genome')):
 					sh.nontrivial += 1
@@ -388,6 +433,7 @@ def t_library(depth, part, nparts):
 def finalize(agg, tier):
 	agg.require('cli_histories', 12)
 	agg.require('fresh_interpreter_histories', 8)
+	agg.require('wal_mode_histories', 50)
 	agg.require('histories_flushing_or_committing_dirty_session', 10)
 
 
@@ -396,9 +442,12 @@ def replay(case, kind=None):
 	hist = case['history']
 	with fixtures.workdir('c18r') as d:
 		fx = clifix.build(os.path.join(d, 'fx'), params=['P0', 'P1'])
+		wal = case.get('journal_mode') == 'wal'
+		if wal:
+			make_wal(fx)
 		if case['mode'] == 'library':
 			hist = [e for e in hist if not e.startswith('(')]
-			w, v, s0 = lib_replay(fx, tuple(hist))
+			w, v, s0 = lib_replay(fx, tuple(hist), wal)
 			lib_cleanup(w)
 			if v is not None and v['kind'] != 'not-enabled':
 				sh.violation(v['kind'], case, None, v)
@@ -406,6 +455,7 @@ def replay(case, kind=None):
 				sh.violation('database-files-changed', case, [list(x) for x in s0], [list(x) for x in disk_state(fx.dbdir)])
 			return sh.violations
 		s0 = disk_state(fx.dbdir)
+		hist = [e for e in hist if not e.startswith('(')]
 		for ev in hist:
 			if case['mode'] == 'in-process':
 				code = fixtures.run_cli(cli_args(fx, d, ev))[0]
@@ -413,6 +463,8 @@ def replay(case, kind=None):
 				code = subprocess.run([sys.executable, '-m', 'gambit'] + [str(a) for a in cli_args(fx, d, ev)], capture_output=True, text=True).returncode
 			if (code != 0) != ev.startswith('fail-') and ev == hist[-1] and kind == 'cli-event-unexpected-exit':
 				sh.violation(kind, case, None, dict(exit=code))
+		if wal:
+			gc.collect()
 		if disk_state(fx.dbdir) != s0:
 			sh.violation('database-files-changed', case, [list(x) for x in s0], [list(x) for x in disk_state(fx.dbdir)])
 	return sh.violations
